@@ -1265,8 +1265,9 @@ var rR24 = RuleRef{Name: "R24", Doc: "replica determinism and snapshots: executo
 							purpose = "a TTL deadline is computed from the local clock (SetTTL argument)"
 						} else if cf.Pkg != nil && cf.Pkg.Pkg.Path() == "time" {
 							fwd(x, d+1) // .Unix(), .UnixMilli(), Sub ...
-						} else if cf.Signature.Recv() != nil && namedOf(cf.Signature.Recv().Type()) == "TTLInfo" && cf.Blocks != nil {
-							// handed to a method of TTLInfo that sets it against the deadline (info.expired(now))
+						} else if firstParty(cf) && cf.Blocks != nil {
+							// handed to a method of TTLInfo, or a helper given the record, that sets it against the deadline
+							// (info.expired(now), secondsLeft(rec, now))
 							for _, cb := range cf.Blocks {
 								for _, ci := range cb.Instrs {
 									if fa, ok := ci.(*ssa.FieldAddr); ok && fieldName(fa) == "value" && namedOf(fa.X.Type()) == "TTLInfo" {
@@ -1613,13 +1614,7 @@ var rR11e = RuleRef{Name: "R11e", Doc: "read commands have no write effect: the 
 				if c.keyspaceAccess(ci) != nil {
 					continue
 				}
-				consts := map[int]bool{}
-				for i, a := range ci.Call.Args {
-					if k, ok := a.(*ssa.Const); ok && k.Value != nil && isBoolType(k.Type()) {
-						consts[i] = k.Value.ExactString() == "true"
-					}
-				}
-				for _, w := range c.reachableKeyspaceWrites(cf, consts, 0, map[*ssa.Function]bool{}) {
+				for _, w := range c.reachableKeyspaceWrites(cf, constArgs(ci), 0, map[*ssa.Function]bool{}) {
 					bad = append(bad, c.pos(ci.Pos())+": through "+cf.Name()+": "+w)
 				}
 			}
@@ -2330,56 +2325,15 @@ func (c *C) sharedKeyspaceTables(ctor *ssa.Function) string {
 // reachableKeyspaceWrites: the keyspace writes (db/ttlKeys Set, Delete ...) in fn and its memdb callees that can be
 // reached when the boolean parameters listed in consts have those constant values: branches on such a parameter (or its
 // negation) are followed on the matching side only. CheckTTL's lazy removal is not a write of the command.
-func (c *C) reachableKeyspaceWrites(fn *ssa.Function, consts map[int]bool, depth int, seen map[*ssa.Function]bool) []string {
+func (c *C) reachableKeyspaceWrites(fn *ssa.Function, consts map[int][]*ssa.Const, depth int, seen map[*ssa.Function]bool) []string {
 	if fn == nil || fn.Blocks == nil || depth > 2 || seen[fn] {
 		return nil
 	}
 	seen[fn] = true
 	defer delete(seen, fn)
 	check := c.P.Func("memdb", "MemDb.CheckTTL")
-	known := func(v ssa.Value) (bool, bool) {
-		neg := false
-		for {
-			u, ok := v.(*ssa.UnOp)
-			if !ok || u.Op != token.NOT {
-				break
-			}
-			v, neg = u.X, !neg
-		}
-		if p, ok := v.(*ssa.Parameter); ok {
-			for i, q := range fn.Params {
-				if q == p {
-					if val, have := consts[i]; have {
-						return val != neg, true
-					}
-				}
-			}
-		}
-		return false, false
-	}
 	var out []string
-	reach := map[*ssa.BasicBlock]bool{}
-	var walk func(b *ssa.BasicBlock)
-	walk = func(b *ssa.BasicBlock) {
-		if reach[b] {
-			return
-		}
-		reach[b] = true
-		if iff, ok := b.Instrs[len(b.Instrs)-1].(*ssa.If); ok {
-			if val, have := known(iff.Cond); have {
-				if val {
-					walk(b.Succs[0])
-				} else {
-					walk(b.Succs[1])
-				}
-				return
-			}
-		}
-		for _, s := range b.Succs {
-			walk(s)
-		}
-	}
-	walk(fn.Blocks[0])
+	reach := prunedReach(fn, consts)
 	for _, b := range fn.Blocks {
 		if !reach[b] {
 			continue
@@ -2399,12 +2353,15 @@ func (c *C) reachableKeyspaceWrites(fn *ssa.Function, consts map[int]bool, depth
 			if cf == nil || !firstParty(cf) || pkgRel(cf) != "memdb" || cf == check || c.Facts.ExecNames[cf] != nil {
 				continue
 			}
-			sub := map[int]bool{}
+			sub := constArgs(ci)
 			for i, a := range ci.Call.Args {
-				if k, ok := a.(*ssa.Const); ok && k.Value != nil && isBoolType(k.Type()) {
-					sub[i] = k.Value.ExactString() == "true"
-				} else if val, have := known(a); have {
-					sub[i] = val
+				// a parameter of ours that is itself bound to a constant is handed on
+				if p, ok := a.(*ssa.Parameter); ok {
+					for j, q := range fn.Params {
+						if q == p && len(consts[j]) > 0 {
+							sub[i] = consts[j]
+						}
+					}
 				}
 			}
 			out = append(out, c.reachableKeyspaceWrites(cf, sub, depth+1, seen)...)
